@@ -43,3 +43,24 @@ CHECKER_MODULES = ["Spdc.Real.DeltaK"]
 def families(tier, seed):
     n = 30000 if tier == "quick" else 300000
     return [("dk", seed, n, [])]
+
+
+# ------------------------------------------------------------------------------------------------------------------------------
+# COMPOSED end-to-end model (branch compose; Model/Compose.lean, notes/compose.md) — purely additive block.
+# The K line of a cmp_* op carries the primitive setup only; the model recomputes beams, principal and direction-dependent
+# indices, external angles, walk-off, k_eff, apodisation weights, wave vectors and Δk through all its layers.
+# Observed: bit-for-bit on every op (0 ulp over 3 seeds × 3000 setups).
+OPS = set(OPS) | {"cmp_beams", "cmp_swap_beams", "cmp_indices", "cmp_theta_ext", "cmp_waist_pos", "cmp_walkoff", "cmp_keff",
+                  "cmp_apod", "cmp_wavevectors", "cmp_deltak"}
+TOL = dict(TOL)
+TOL.update({"cmp_beams": ("ulp", 4), "cmp_swap_beams": ("ulp", 4), "cmp_indices": ("ulp", 4), "cmp_theta_ext": ("ulp", 16),
+            "cmp_waist_pos": ("ulp", 16), "cmp_walkoff": ("rel", 1e-12, 1e-12), "cmp_keff": ("ulp", 2), "cmp_apod": ("ulp", 8),
+            "cmp_wavevectors": ("ulp", 8), "cmp_deltak": ("rel", 1e-12, 1e-8)})
+RULE += ' | family compose/c03: random valid setups (11 crystals × 5 PM types, poled (8 window kinds, signed period) / unpoled, 2/3 phase-matched by the crate\'s optimum calls whose results become primitives, 2/3 non-collinear up to 3° external incl. negative internal angles and counter-propagation, waists 20 µm–3 mm (¼ elliptical), idler explicit (optimum read back or arbitrary) or "auto" (1/3: the model computes the optimum idler itself)): beams (angles, direction, frequency, wavelength, polarization, waist) of the setup and of its exchange, principal indices at λ(ωs), λ(ωi), λ(ωs+ωi), n_s(ωs), n_i(ωi), n_p(ωs+ωi), n_p(ωp), external angles, optimal waist positions, pump walk-off, k_eff, apodisation weights at 5 z, the three wave vectors and Δk at the centre and at one detuned pair'
+LEVEL_NOTE += ' COMPOSED MODEL (notes/compose.md): the cmp_* K ops are NOT layered — their K line carries only the primitive setup (crystal id, angles, length, temperature, PM type, wavelengths, internal signal/idler angles, waists, waist positions, bandwidth, power, threshold, deff, signed poling period + window) and Spdc.Model.Compose recomputes the printed quantity through every layer model (Crystals → Index → Beam/Units → DeltaK → Poling → PM → Quad → Norm/Jsa → Singles); the real side is an SPDC rebuilt from exactly these primitives by Beam::new / PumpBeam::from / PeriodicPoling::new / SPDC::new (+ assign_optimum_idler for idler "auto"). Outside the composition (their RESULTS are primitives): Snell inverse, optimum_theta, optimum_poling_period.'
+CHECKER_MODULES = list(CHECKER_MODULES) + ["Spdc.Real.ComposeLemmas"]
+_families_layered = families
+
+
+def families(tier, seed):
+    return _families_layered(tier, seed) + [("compose", seed, 2500 if tier == "quick" else 30000, ["c03"])]
